@@ -3772,6 +3772,7 @@ class WBEMConnection:  # pylint: disable=too-many-instance-attributes
         try:
 
             if namespace is None and \
+               isinstance(NewInstance, CIMInstance) and \
                getattr(NewInstance.path, 'namespace', None) is not None:
                 namespace = NewInstance.path.namespace
             namespace = self._iparam_namespace_from_namespace(namespace)
